@@ -245,8 +245,10 @@ func c34Start() {
 	c34Srv = s
 }
 
-// c34Backoff answers 0 (no sleep) n times, then Stop (Send never calls Reset).
-type c34Backoff struct{ left int }
+// c34Backoff answers 0 (no sleep) n times, then Stop. Like the real backoffs (WithMaxRetries,
+// ExponentialBackOff) Reset refills it: a Send that resets its backoff mid-request gets more
+// attempts than the budget allows.
+type c34Backoff struct{ n, left int }
 
 func (b *c34Backoff) NextBackOff() time.Duration {
 	if b.left <= 0 {
@@ -255,7 +257,7 @@ func (b *c34Backoff) NextBackOff() time.Duration {
 	b.left--
 	return 0
 }
-func (b *c34Backoff) Reset() {}
+func (b *c34Backoff) Reset() { b.left = b.n }
 
 type c34OnlyReader struct{ r io.Reader }
 
@@ -467,7 +469,7 @@ func c34Exec(t *verifh.T, c verifh.Case, tmp string) bool {
 		if err != nil || n < 0 || n > 64 {
 			return false
 		}
-		opts = append(opts, httputil.SendRetry(httputil.RetryBackoff(&c34Backoff{left: n}), httputil.RetryCodes(extra...)))
+		opts = append(opts, httputil.SendRetry(httputil.RetryBackoff(&c34Backoff{n: n, left: n}), httputil.RetryCodes(extra...)))
 	}
 	var rd io.Reader
 	switch impl {
@@ -753,6 +755,56 @@ func TestVerif_C34(t *testing.T) {
 						return
 					}
 				}
+			}
+		}
+	}
+	// (a3'') scripts that mix network errors and statuses and are longer than the backoff budget:
+	// every script over {net, s503, s200, s404} up to length budget+3 for budgets 0..3, and long
+	// alternating ones: the number of attempts is bounded by the budget whatever the order of outcomes
+	var mixed func(prefix []string, d int, bo int)
+	mixed = func(prefix []string, d int, bo int) {
+		if len(prefix) > 0 {
+			for _, impl := range []string{"nil", "bytesreader"} {
+				c34Exec(tr, c34Case("POST", "/m", nil, impl, bodyFor(impl, body), "200", "-", strconv.Itoa(bo), c34HTTP, prefix), tmp)
+				tr.Count("mixed_script_cases", 1)
+			}
+		}
+		if d == 0 {
+			return
+		}
+		for _, a := range []string{"net", "s503", "s200", "s404"} {
+			if len(prefix) > 0 && (prefix[len(prefix)-1] == "s200" || prefix[len(prefix)-1] == "s404") {
+				continue // nothing follows an answer that ends the request
+			}
+			mixed(append(prefix[:len(prefix):len(prefix)], a), d-1, bo)
+		}
+	}
+	for bo := 0; bo <= 3; bo++ {
+		mixed(nil, bo+3, bo)
+		if stop() {
+			return
+		}
+	}
+	for _, bo := range []string{"0", "1", "2", "3", "default"} {
+		for _, first := range []string{"net", "s503", "refuse", "n2"} {
+			second := "s503"
+			if first == "s503" {
+				second = "net"
+			}
+			var sc []string
+			for i := 0; i < 24; i++ {
+				if i%2 == 0 {
+					sc = append(sc, first)
+				} else {
+					sc = append(sc, second)
+				}
+			}
+			for _, o := range []c34Opt{c34HTTP, {tls: "1", fb: "0", ka: "0"}, {tls: "1", fb: "1", ka: "0"}} {
+				if bo == "default" && (o.tls == "1" || first != "net") {
+					continue
+				}
+				c34Exec(tr, c34Case("PUT", "/alt", nil, "bytesreader", body, "200", "-", bo, o, sc), tmp)
+				tr.Count("alternating_script_cases", 1)
 			}
 		}
 	}
